@@ -15,6 +15,9 @@ Inductive tkind := InPlace | Rebind.        (* `mesh.vertices[i] += e`  /  `mesh
 Inductive dorig := DZero | DVertex0.        (* default origin of a transform *)
 (* which mesh the connectivity object handed to a copy answers from: the copy itself, the source, or a hidden clone *)
 Inductive backref := BackToCopy | BackToSource | BackToClone.
+(* convention of the three Euler angles rotate accepts as a list / tuple: rotations about the fixed axes x, y, z in that
+   order (scipy "xyz": R = Rz Ry Rx) or about the moving axes (scipy "XYZ": R = Rx Ry Rz) *)
+Inductive eulerseq := Fixed_xyz | Moving_xyz.
 Inductive slotsrc := SFresh | SSame (k : nat).  (* a producer appends a new vector / the vector already stored in slot k *)
 
 Definition vec (T : Type) : Type := (T * T * T)%type.
